@@ -6,6 +6,24 @@ mod stf;
 mod stfdump;
 mod vm;
 
+/// counting allocator: bytes requested so far (used to bound the memory a single VM step may take)
+pub struct Counting;
+pub static ALLOCATED: std::sync::atomic::AtomicU64 = std::sync::atomic::AtomicU64::new(0);
+unsafe impl std::alloc::GlobalAlloc for Counting {
+    unsafe fn alloc(&self, l: std::alloc::Layout) -> *mut u8 {
+        ALLOCATED.fetch_add(l.size() as u64, std::sync::atomic::Ordering::Relaxed);
+        std::alloc::System.alloc(l)
+    }
+    unsafe fn dealloc(&self, p: *mut u8, l: std::alloc::Layout) { std::alloc::System.dealloc(p, l) }
+    unsafe fn realloc(&self, p: *mut u8, l: std::alloc::Layout, n: usize) -> *mut u8 {
+        ALLOCATED.fetch_add(n.saturating_sub(l.size()) as u64, std::sync::atomic::Ordering::Relaxed);
+        std::alloc::System.realloc(p, l, n)
+    }
+}
+#[global_allocator]
+static GLOBAL: Counting = Counting;
+pub fn allocated() -> u64 { ALLOCATED.load(std::sync::atomic::Ordering::Relaxed) }
+
 pub fn panic_msg(p: &Box<dyn std::any::Any + Send>) -> String {
     if let Some(s) = p.downcast_ref::<&str>() { s.to_string() }
     else if let Some(s) = p.downcast_ref::<String>() { s.clone() }
